@@ -73,3 +73,203 @@ def C18(prog: Program, run: Run, tier: str) -> None:
     )
     run.floor("R-LOCK|", 8)
     run.floor("R-ACCESSOR|", 10)
+
+
+# ---------------------------------------------------------------------------------------------
+from .rules import axis, extra, forward, guards, rounding, specific  # noqa: E402
+
+AXIS_DESC = (
+    "R-AXIS x/y axis-tag consistency: T1 tagged value in a slot of the opposite axis (Affine, xy_/yx_, BoundingBox, "
+    "shape_, GeoBox, np.s_[rows, cols] ...), T2 unpack of a known-order tuple into names of the opposite belief, "
+    "T3 zip of different orders, T4 per-axis helper with arguments of both axes, T5 X+-Y / cross-axis compare / min-max"
+)
+ROUND_DESC = (
+    "R-ROUND rounding roles: LOWER (slice/range start, BoundingBox arg 0-1, interval-start locals) rounds down, "
+    "UPPER/COUNT (stops, BoundingBox arg 2-3, shapes, tile counts) rounds up; clamps start through max(0,.) and "
+    "stop through min(N,.); at least one pixel"
+)
+FWD_DESC = "R-FORWARD every parameter is read; no keyword cross-wiring between parameters; options shared by caller and callee are passed on"
+
+
+def _only(insts, *prefixes):
+    return [i for i in insts if any(i.construct.startswith(p) for p in prefixes)]
+
+
+def _fwd(prog, mods):
+    return forward.rule_unused(prog, mods) + forward.rule_crosswire(prog, mods) + forward.rule_forward(prog, mods)
+
+
+def C02(prog: Program, run: Run, tier: str) -> None:
+    mods = {"geobox", "geom", "gcp", "math", "types"}
+    run.add(axis.rule_axis(prog, mods if tier == "quick" else mods | {"overlap", "roi", "gridspec", "_xr_interop", "warp", "ui"}), AXIS_DESC)
+    run.add(specific.rule_corners(prog), "R-CORNERS footprint polygon and bounding box push the same four pixel corners through the transform; box = min/max over them")
+    run.add(specific.rule_immut(prog), "R-IMMUT _shape/_affine/_crs assigned only in GeoBoxBase.__init__, _extent only in extent")
+    run.add(_only(crsguard.rule_retag(prog, {"geobox", "gcp"}), "geobox:", "gcp:"), "R-RETAG every view returns the receiver's CRS")
+    run.add(_only(rounding.rule_round(prog, {"geobox", "gcp", "geom"}), "geobox:GeoBoxBase.compute", "geobox:GeoBox.", "geobox:scaled_down", "geobox:_round", "gcp:", "geom:BoundingBox.round"), ROUND_DESC)
+    run.add(_only(rounding.rule_clamps(prog), "geobox:GeoBoxBase.compute_zoom_out"), None)
+    run.add(_fwd(prog, {"geobox", "gcp"}), FWD_DESC)
+    run.floor("R-AXIS|", 150)
+    run.floor("R-CORNERS|", 7)
+
+
+def C03(prog: Program, run: Run, tier: str) -> None:
+    mods = {"overlap", "roi", "math"}
+    run.add(_only(rounding.rule_round(prog, mods), "overlap:", "roi:roi_from_points", "roi:scaled", "math:align"), ROUND_DESC)
+    run.add(_only(rounding.rule_clamps(prog), "roi:scaled_up_roi"), None)
+    run.add(axis.rule_axis(prog, {"overlap", "roi"}), AXIS_DESC)
+    run.add(_only(specific.rule_cast(prog, {"roi", "overlap"}), "roi:roi_from_points", "overlap:"), "R-CAST no unbounded float -> fixed-width int cast")
+    run.add(guards.finite_filter(prog), "R-GUARDSEQ finite filter and empty case precede the envelope; result clipped per axis")
+    run.add(_only(guards.paste_eligibility(prog), "overlap:compute_reproject_roi"), "R-GUARDSEQ one read_shrink feeds zoom, affine and scale-up; paste verdict wiring")
+    run.add(_fwd(prog, {"overlap"}), FWD_DESC)
+    run.add(extra.point_transform(prog) + extra.relative_rois(prog) + extra.reproject_info_fields(prog),
+            "R-GUARDSEQ point transform goes src.pix2wld -> (clamp) -> transformer(src->dst) -> dst.wld2pix, back swaps; envelopes mapped in the right "
+            "direction and clipped to the right shape; empty source => empty destination; scale = min(scale2); read_shrink from scale")
+    run.floor("R-ROUND|", 10)
+    run.floor("R-AXIS|", 30)
+
+
+def C04(prog: Program, run: Run, tier: str) -> None:
+    run.add(api.rule_api(prog, {"_blocks", "roi", "geobox"} if tier == "quick" else None), "R-API every third-party reference resolves in the installed environment")
+    run.add(_only(rounding.rule_round(prog, {"roi", "cog._shared"}), "roi:Tiles", "roi:Variable", "roi:scaled", "cog._shared:CogMeta.chunked"), ROUND_DESC)
+    run.add(_only(rounding.rule_clamps(prog), "roi:Tiles"), None)
+    run.add(axis.rule_axis(prog, {"roi", "_blocks"}), AXIS_DESC)
+    run.add(_only(specific.rule_exhaust(prog), "roi:"), "R-EXHAUST both tilings implement every RoiTiles member")
+    run.add(_only(specific.rule_cast(prog, {"roi", "_blocks"}), "roi:Var", "_blocks"), "R-CAST")
+    run.add(_fwd(prog, {"roi", "_blocks"}), FWD_DESC)
+    run.add(extra.block_assembler(prog), "R-GUARDSEQ BlockAssembler reads each block through its own part of the 3-way intersection and writes through the window's part into a fill-initialised window")
+    run.floor("R-API|", 20)
+    run.floor("R-AXIS|", 25)
+
+
+def C05(prog: Program, run: Run, tier: str) -> None:
+    run.add(api.rule_api(prog, {"cog._tifffile", "cog._mpu", "cog._mpu_fs", "cog._shared", "cog._s3"} if tier == "quick" else None), "R-API the writer's imports and attribute references resolve in the installed dask/tifffile/numpy")
+    run.add(cog.rule_flow16(prog), "R-FLOW16 tile sizes originate from adjust_blocksize/norm_blocksize whose returns are align_up(.,16)")
+    run.add(cog.rule_order(prog), "R-ORDER the bag list handed to the multi-part writer is the reversed level list (overviews first)")
+    run.add(cog.rule_swallow(prog), "R-SWALLOW (informational) encoder errors returned as empty tiles")
+    run.add(_only(specific.rule_exhaust(prog), "cog."), "R-EXHAUST axis-order dispatch total over YX/YXS/SYX")
+    run.add(axis.rule_axis(prog, {"cog._shared", "cog._tifffile"}), AXIS_DESC)
+    run.add(_only(rounding.rule_round(prog, {"cog._shared", "types"}), "cog._shared", "types:Shape2d"), ROUND_DESC)
+    run.add(_fwd(prog, {"cog._tifffile", "cog._shared"}), FWD_DESC)
+    run.floor("R-API|", 30)
+    run.floor("R-FLOW16|", 7)
+
+
+def C07(prog: Program, run: Run, tier: str) -> None:
+    run.add(specific.rule_displ(prog), "R-DISPL the edge-length test is a translation-invariant (squared) length over both axes compared with the (squared) resolution; vertices retained; holes densified; all geometry kinds dispatched")
+    run.add(guards.to_crs_preconditions(prog), "R-GUARDSEQ same CRS returns the receiver, CRS-less raises ValueError, both before any transform; the densified geometry is what gets projected")
+    run.add([i for i in valueobj.rule_cache(prog) if "ORDER" in i.construct or "ALWAYSXY" in i.construct or "KEYCOMPLETE" in i.construct], "R-CACHE source/target pass-through and transformer cache key completeness")
+    run.add(_only(crsguard.rule_retag(prog, {"geom"}), "geom:Geometry.to_crs", "geom:Geometry._to_crs", "geom:Geometry.segmented", "geom:Geometry.transform"), "R-RETAG result tagged with the target CRS")
+    run.add(_fwd(prog, {"geom"}), FWD_DESC)
+    run.floor("R-DISPL|", 4)
+    run.floor("R-GUARDSEQ|", 6)
+
+
+def C08(prog: Program, run: Run, tier: str) -> None:
+    run.add(_only(rounding.rule_round(prog, {"math"}), "math:_snap", "math:snap_grid"), ROUND_DESC)
+    run.add(_only(rounding.rule_clamps(prog), "math:"), None)
+    run.add(specific.rule_signrole(prog), "R-SIGNROLE edge chosen by the sign of the same-axis resolution; anchor offset removed before and restored after snapping")
+    run.add(_only(axis.rule_axis(prog, {"geobox", "math"}), "geobox:GeoBox.from_bbox", "geobox:GeoBox.from_geopolygon", "math:snap", "math:_snap", "geobox:_norm_anchor"), AXIS_DESC)
+    run.add(_only(specific.rule_exhaust(prog), "geobox:"), "R-EXHAUST anchor literals total, EDGE->0, CENTER->0.5, tight->floating")
+    run.add(_only(_fwd(prog, {"geobox", "overlap"}), "geobox:GeoBox.from_", "geobox:GeoBox.to_crs", "geobox:GeoBox.zoom_to", "geobox:GeoBoxBase.compute_zoom_to", "overlap:compute_output_geobox", "geobox:zoom_to"), FWD_DESC)
+    run.floor("R-SIGNROLE|", 8)
+    run.floor("R-AXIS|", 20)
+
+
+def C09(prog: Program, run: Run, tier: str) -> None:
+    run.add(specific.rule_keys(prog), "R-KEYS writer/reader attribute and encoding key tables agree; SPATIAL_ATTRIBUTES covers reader keys; GDAL GeoTransform order; col/row pairing")
+    run.add(specific.rule_sibling(prog), "R-SIBLING DataArray and Dataset reprojection both register the destination at their own level (coords from xr_coords(dst), attrs pruned, stale CRS coordinate dropped)")
+    run.add(forward.rule_option_keys(prog), "R-FORWARD geobox options packed/extracted/accepted under the same names; kw split between geobox and warp options")
+    run.add(axis.rule_axis(prog, {"_xr_interop"}), AXIS_DESC)
+    run.add(_fwd(prog, {"_xr_interop"}), FWD_DESC)
+    run.floor("R-KEYS|", 25)
+    run.floor("R-SIBLING|", 9)
+
+
+def C10(prog: Program, run: Run, tier: str) -> None:
+    run.add(guards.paste_eligibility(prog), "R-GUARDSEQ paste reported only behind all four eligibility guards, only on the same-CRS branch, with ttol/stol wired straight; one read_shrink")
+    run.add(guards.snap_affine_guards(prog), "R-GUARDSEQ snap_affine passes rotated input through and writes components back to their slots with the right tolerances")
+    run.add(extra.warp_detour(prog), "R-EXHAUST pixels warped into a converted array are copied back; source/destination CRS and transform come from their own geobox")
+    run.add(_only(axis.rule_axis(prog, {"overlap"}), "overlap:box_overlap", "overlap:compute_axis_overlap", "overlap:_can_paste"), AXIS_DESC)
+    run.floor("R-GUARDSEQ|", 12)
+
+
+def C11(prog: Program, run: Run, tier: str) -> None:
+    run.add(guards.identity_shortcircuit(prog), "R-GUARDSEQ `return gbox` only under all five conditions; output box from the buffered footprint in the requested CRS")
+    run.add(_only(_fwd(prog, {"overlap", "geobox"}), "overlap:compute_output_geobox", "geobox:GeoBox.to_crs", "geobox:GeoBoxBase.footprint"), FWD_DESC)
+    run.add(_only(axis.rule_axis(prog, {"overlap", "crs"}), "overlap:compute_output_geobox", "overlap:get_scale", "crs:"), AXIS_DESC)
+    run.floor("R-GUARDSEQ|", 6)
+
+
+def C12(prog: Program, run: Run, tier: str) -> None:
+    run.add(specific.rule_empty(prog), "R-EMPTY a possibly-empty footprint intersection is tested before its bounds are used")
+    run.add(_only(rounding.rule_clamps(prog), "geobox:GeoboxTiles"), ROUND_DESC)
+    run.add(_only(rounding.rule_round(prog, {"geobox", "geom", "roi"}), "geobox:GeoboxTiles", "geom:BoundingBox.round", "roi:Tiles.locate"), None)
+    run.add(_only(axis.rule_axis(prog, {"geobox", "roi"}), "geobox:GeoboxTiles", "roi:Tiles.locate", "roi:VariableSizedTiles.locate"), AXIS_DESC)
+    run.add(extra.tile_query(prog), "R-GUARDSEQ geometry queries filter with the extent of the tile at the same index; linear path maps each tile's own box through A, rounds outwards and stores under the same index; general path queries with the tile's own extent")
+    run.floor("R-EMPTY|", 1)
+    run.floor("R-AXIS|", 12)
+
+
+def C13(prog: Program, run: Run, tier: str) -> None:
+    run.add(specific.rule_fill(prog), "R-FILL one fill resolver for uncovered chunks, covered chunks and the in-memory path; precedence dst_nodata > src_nodata > NaN(float) > 0; missing dependency => constant fill block")
+    run.add(api.rule_api(prog, {"_dask", "_blocks", "warp"} if tier == "quick" else None), "R-API code path exists in the installed numpy/dask/rasterio")
+    run.add(specific.rule_empty(prog), "R-EMPTY disjoint rasters cannot raise from an empty footprint")
+    run.add(_fwd(prog, {"_dask", "warp"}), FWD_DESC)
+    run.add(axis.rule_axis(prog, {"_dask", "warp", "_blocks"}), AXIS_DESC)
+    run.floor("R-FILL|", 12)
+    run.floor("R-API|", 15)
+
+
+def C14(prog: Program, run: Run, tier: str) -> None:
+    run.add(axis.rule_axis(prog, {"gridspec"}), AXIS_DESC)
+    run.add(_only(specific.rule_signrole(prog), "gridspec:"), "R-SIGNROLE tile origin chosen by the sign of the same-axis resolution; bins indexed with their own axis index")
+    run.add(_only(rounding.rule_round(prog, {"math"}), "math:Bin1D"), ROUND_DESC)
+    run.add([i for i in valueobj.rule_valueobj(prog, ["math:Bin1D", "gridspec:GridSpec"]) if "EQCOMPLETE" in i.construct or "EQIDENT" in i.construct], "R-VALUEOBJ Bin1D equality complete over its slots")
+    run.add(_only(crsguard.rule_crsguard(prog, {"gridspec"}), "gridspec:"), "R-CRSGUARD polygon query reconciles the CRS first")
+    run.add(_fwd(prog, {"gridspec"}), FWD_DESC)
+    run.floor("R-AXIS|", 20)
+
+
+def C15(prog: Program, run: Run, tier: str) -> None:
+    run.add(guards.overwrite_guard(prog), "R-GUARDSEQ destination removed only under overwrite, existing file without overwrite raises, file sinks only through the checked path")
+    run.add(_only(cog.rule_flow16(prog), "cog._shared:adjust", "cog._rio"), "R-FLOW16 GDAL block sizes come from adjust_blocksize(blocksize, nx|ny)")
+    run.add(_fwd(prog, {"cog._rio"}), FWD_DESC)
+    run.add(axis.rule_axis(prog, {"cog._rio"}), AXIS_DESC)
+    run.add(api.rule_api(prog, {"cog._rio"}), "R-API")
+    run.floor("R-GUARDSEQ|", 5)
+
+
+def C16(prog: Program, run: Run, tier: str) -> None:
+    run.add(guards.grid_compat(prog), "R-GUARDSEQ incompatible grids always rejected: four isclose guards by Affine slot, near-integer guard before round, ValueError, direction ~b*a")
+    run.add(_only(crsguard.rule_crsguard(prog, {"geobox", "geom"}, crsguard.C01_MUST_GUARD), "geobox:pixel_translation", "geobox:bounding_box", "geobox:geobox_", "geobox:GeoBox.__", "geobox:GeoBox.overlap", "geobox:GeoBox.snap", "geom:bbox_", "geom:BoundingBox.__"), "R-CRSGUARD")
+    run.add(specific.rule_lattice(prog), "R-LATTICE min/max roles of union and intersection per component; empty-intersection normalisation; result origin and shape")
+    run.add(_only(rounding.rule_clamps(prog), "geobox:GeoBox.overlap_roi"), ROUND_DESC)
+    run.add(_only(rounding.rule_round(prog, {"geom"}), "geom:BoundingBox.round"), None)
+    run.add(_only(axis.rule_axis(prog, {"geobox", "geom", "math"}), "geobox:GeoBox.overlap_roi", "geobox:GeoBox.enclosing", "geobox:GeoBox.snap_to", "geobox:bounding_box", "geobox:pixel_tr", "geobox:geobox_", "geom:bbox_", "geom:BoundingBox", "math:split_translation"), AXIS_DESC)
+    run.add(_only(crsguard.rule_retag(prog, {"geobox", "geom"}), "geobox:geobox_", "geobox:GeoBox.enclosing", "geom:bbox_"), "R-RETAG")
+    run.floor("R-LATTICE|", 14)
+    run.floor("R-GUARDSEQ|", 6)
+
+
+def C17(prog: Program, run: Run, tier: str) -> None:
+    run.add(_only(specific.rule_cast(prog, {"roi"}), "roi:"), "R-CAST no unbounded float -> int32 cast in the point envelope")
+    run.add(guards.finite_filter(prog), "R-GUARDSEQ finite filter (both coordinates) and empty case first; clip per axis")
+    run.add(_only(rounding.rule_round(prog, {"roi", "math"}), "roi:scaled", "roi:roi_from_points", "math:align"), ROUND_DESC)
+    run.add(_only(rounding.rule_clamps(prog), "roi:roi_pad", "roi:scaled_up"), None)
+    run.add(_only(axis.rule_axis(prog, {"roi"}), "roi:roi_", "roi:polygon_path", "roi:scaled", "roi:WindowFromSlice"), AXIS_DESC)
+    run.add(_only(_fwd(prog, {"roi"}), "roi:roi_", "roi:scaled", "roi:slice", "roi:_norm", "roi:_fill"), FWD_DESC)
+    run.add(extra.intersect_siblings(prog), "R-SIBLING slice_intersect3 and roi_intersect agree on start/stop roles (max/min) and on the disjoint tests")
+    run.floor("R-ROUND|", 7)
+
+
+def C20(prog: Program, run: Run, tier: str) -> None:
+    run.add(_only(rounding.rule_round(prog, {"math"}), "math:"), ROUND_DESC)
+    run.add(_only(rounding.rule_clamps(prog), "math:"), None)
+    run.add(specific.rule_signrole(prog), "R-SIGNROLE endpoint by sign of resolution; anchor offset in/out")
+    run.add(guards.snap_affine_guards(prog), "R-GUARDSEQ snap_affine rotation pass-through, slots, tolerances")
+    run.add(guards.nonfinite_first(prog), "R-GUARDSEQ non-finite input handled first in split_float / maybe_int / is_almost_int")
+    run.add(axis.rule_axis(prog, {"math"}), AXIS_DESC)
+    run.add([i for i in valueobj.rule_valueobj(prog, ["math:Bin1D"]) if "EQ" in i.construct], "R-VALUEOBJ Bin1D equality complete")
+    run.add(_fwd(prog, {"math"}), FWD_DESC)
+    run.floor("R-ROUND|", 6)
+    run.floor("R-AXIS|", 25)
